@@ -443,6 +443,15 @@ static void finish_scaled_subject(Subject& s)
     }
 }
 
+// magnitude class of a non-zero scaled value: which layout shows the first significant digit in
+// fewer characters (fixed: all integer digits, or the point and the leading zeros; scientific: d.e<N>)
+static bool sci_shorter(Subject const& s) { return sci_need1(s.ex) < fixed_need1(s.ex); }
+static const char* magclass(Subject const& s)
+{
+    if (s.ex.xtop() < 0) return sci_shorter(s) ? "mag<1e-4" : "mag<1";
+    return sci_shorter(s) ? "mag>=1e4" : "mag<1e4";
+}
+
 static std::string region(Subject const& s, int len)
 {
     std::string r = s.kind;
@@ -460,7 +469,8 @@ static std::string region(Subject const& s, int len)
     else if (room < need1) r += "/room<first_digit";
     else if (len < s.full_len) r += "/room<text";
     else r += "/room>=text";
-    r += c1 < f1 ? "/sci_shorter" : "/fixed_shorter";
+    r += "/";
+    r += magclass(s);
     return r;
 }
 
@@ -506,11 +516,11 @@ static void check13(Subject const& s, int len, CallRes const& r, std::string con
         return;
     }
     // can any layout show a significant digit in this buffer?
-    bool digit_fits = true, sci_shorter = false;
+    bool digit_fits = true, tiny = false;
     if (s.scaled && !s.zero) {
         int f1 = fixed_need1(s.ex), c1 = sci_need1(s.ex);
         digit_fits = len - (s.neg ? 1 : 0) >= (f1 < c1 ? f1 : c1);
-        sci_shorter = c1 < f1;
+        tiny = s.ex.xtop() < 0 && c1 < f1;
     }
     if (r.ec == 0) {
         if (!(r.ptr > r.first && r.ptr <= r.last)) {
@@ -527,7 +537,7 @@ static void check13(Subject const& s, int len, CallRes const& r, std::string con
             bad = true;
         }
         if (bad) tally.add("bad_success");
-        else if (!digit_fits) tally.add(sci_shorter ? "ok_success_without_room_for_a_digit_sci_shorter" : "ok_success_without_room_for_a_digit");
+        else if (!digit_fits) tally.add(tiny ? "ok_success_without_room_for_a_digit_mag<1e-4" : "ok_success_without_room_for_a_digit");
         else tally.add(len < s.full_len ? "ok_success_truncated_text" : (s.zero ? "ok_success_zero" : (s.neg ? "ok_success_negative" : "ok_success_positive")));
         return;
     }
@@ -548,7 +558,7 @@ static void check13(Subject const& s, int len, CallRes const& r, std::string con
     if (len >= s.capacity) tally.add("fail_with_capacity_sized_buffer");
     else if (len >= s.full_len) tally.add("fail_although_text_fits");
     else if (len == 0) tally.add("ok_fail_empty_buffer");
-    else if (!digit_fits) tally.add(sci_shorter ? "ok_fail_no_room_for_a_digit_sci_shorter" : "ok_fail_no_room_for_a_digit");
+    else if (!digit_fits) tally.add(tiny ? "ok_fail_no_room_for_a_digit_mag<1e-4" : "ok_fail_no_room_for_a_digit");
     else tally.add(s.scaled ? "ok_fail_although_a_digit_fits" : "ok_fail_too_small");
 }
 
